@@ -8,6 +8,7 @@ CONSTANTS
   Shapes = {"scalar", "string", "cat", "dense", "densecat", "nested", "sparse", "sparsecat", "sparsecatk", "sparsenest", "sparsepart", "sparsezero"}
   Flavours = {"sim", "igl", "iglmix", "logged"}
   Envs = {"one", "same", "diff"}
+  Mixes = "none"
 INVARIANT Emit
 INVARIANT Conserved
 INVARIANT LoggedMember
